@@ -5,6 +5,8 @@ V = os.path.dirname(os.path.dirname(os.path.abspath(__file__)))
 props = [json.loads(l) for l in open(os.path.join(V, 'properties.jsonl'))]
 TRUST = 'Trusts rustc nightly MIR/const-eval for the ska crate (same source and cfg as the stable build) and the analyses in sa/.'
 CLAIMS = {
+ 'C01': ('other', 'Structural necessary conditions of exact k-mer enumeration, each decided for all inputs of its finite/affine domain: every end-of-record guard of SplitKmer::build/roll_fwd is tight against the bounds checks it protects (a window ending at the record end is kept, no read out of bounds), on a grid complete for unit-coefficient affine comparisons; all SplitKmer::new call sites pass seq()/num_bases() of one record; get_curr_kmer picks the lower orientation with its own middle base; add_to_dict / add_palindrome_to_dict decision tables equal the IUPAC union; the first-k-mer and loop blocks of add_file_kmers apply the same 16-row predicate. Packing/rolling/decoding exactness is C16; table contents are C15. The end-to-end statement over all record sets additionally relies on the trusted FASTA parser.',
+         'static analysis: predicate extraction + tightness check of guards vs. MIR bounds assertions, finite-domain abstract interpretation, sibling-block truth tables'),
  'C08': ('other', 'Structural necessary conditions of delete on every path: the names-file reader accepts a one-name line; both refusals of delete_samples diverge and dominate the replacement of the table, and generic_modes::delete reaches save only through delete_samples (refused => file untouched); update_counts(false) on every path from the column removal to return; a name is dropped iff its column index is recorded and a column is skipped iff its index equals the next recorded one. Order preservation of ndarray::push_column is trusted.',
          'static analysis: MIR dominance / must-pass-through / decision-edge rules'),
  'C09': ('other', 'Structural necessary conditions decided on every path: the deserialiser rejects a stored width != IntT::n_bits() before any Ok return; the u64/u128 branches of all ten dispatching arms of main are call-for-call siblings with provenance-identical arguments and diverge when both widths fail; Build/Cov pick u64 iff k<=31 and all four k validators accept exactly odd 5..=63. Round-trip fidelity of CBOR/snappy is library behaviour and is not decided.',
